@@ -175,6 +175,11 @@ func ruleMemGet(p *Prog, r *Report, rule string) {
 	}
 	checkGuard(p, r, GuardSpec{Rule: "value-hit", Fn: fn, Target: retHitValue, TargetDesc: "return (true, value, nil)", Atoms: []Atom{findOK, ukeyEq, isDel}, G: func(a []bool) bool { return a[0] && a[1] && !a[2] }, GDesc: "found ∧ same user key ∧ not a tombstone", MinTargets: 1})
 	checkGuard(p, r, GuardSpec{Rule: "tombstone-hit", Fn: fn, Target: retHitNotFound, TargetDesc: "return (true, nil, ErrNotFound)", Atoms: []Atom{findOK, ukeyEq, isDel}, G: func(a []bool) bool { return a[0] && a[1] && a[2] }, GDesc: "found ∧ same user key ∧ tombstone", MinTargets: 1})
+	// conversely: an entry of the probed user key IS a hit (a value that is skipped lets an older
+	// version from a later source answer; a tombstone that is skipped resurrects the key)
+	notHit := func(in ssa.Instruction) bool { return isReturn(in) && !retOK(true)(in) }
+	checkGuardExact(p, r, GuardSpec{Rule: "value-hit", Fn: fn, Target: retHitValue, TargetDesc: "the value is reported as a hit", Atoms: []Atom{findOK, ukeyEq, isDel}, G: func(a []bool) bool { return a[0] && a[1] && !a[2] }, GDesc: "found ∧ same user key ∧ not a tombstone"}, notHit, "a non-hit return")
+	checkGuardExact(p, r, GuardSpec{Rule: "tombstone-hit", Fn: fn, Target: retHitNotFound, TargetDesc: "the tombstone is reported as a hit (ErrNotFound)", Atoms: []Atom{findOK, ukeyEq, isDel}, G: func(a []bool) bool { return a[0] && a[1] && a[2] }, GDesc: "found ∧ same user key ∧ tombstone"}, notHit, "a non-hit return")
 	// compare the FOUND key's user part with the probe's user part
 	checkCallArg(p, r, fn, "compares-found-ukey", fUCompare, 1, mExtract(0, fParseIKey), "the found entry's user key")
 	checkCallArg(p, r, fn, "compares-probe-ukey", fUCompare, 2, mCall("(leveldb.internalKey).ukey"), "the probe's user key")
@@ -192,6 +197,11 @@ func evStoreCell(name string) InstrPred {
 		al := resolveCell(st.Addr)
 		return al != nil && al.Comment == name
 	}
+}
+
+func storeValueNonNilC01(in ssa.Instruction) bool {
+	st, ok := in.(*ssa.Store)
+	return ok && evStoreCell("value")(in) && !isNilConst(st.Val)
 }
 
 // ruleVersionGetGuards: C01.3.
@@ -227,6 +237,19 @@ func ruleVersionGetGuards(p *Prog, r *Report, rule string) {
 		checkGuard(p, r, GuardSpec{Rule: "level0-candidate:" + cell, Fn: cb, Target: evStoreCell(cell), TargetDesc: "store to " + cell + " (level-0 candidate)",
 			Atoms: atoms, G: func(a []bool) bool { return a[0] && a[1] && a[2] && a[3] && a[4] }, GDesc: "ferr==nil ∧ fkerr==nil ∧ same user key ∧ level<=0 ∧ fseq>=zseq", MinTargets: 1})
 	}
+	// conversely: a qualifying level-0 entry DOES become the candidate, a deeper-level value IS the
+	// result and clears the not-found default (skipping either returns an older version / not-found)
+	anyRet := isReturn
+	checkGuardExact(p, r, GuardSpec{Rule: "level0-candidate-taken", Fn: cb, Target: evStoreCell("zseq"), TargetDesc: "the entry becomes the level-0 candidate", Atoms: atoms,
+		G: func(a []bool) bool { return a[0] && a[1] && a[2] && a[3] && a[4] }, GDesc: "no error ∧ same user key ∧ level<=0 ∧ fseq>=zseq"}, anyRet, "return")
+	checkGuardExact(p, r, GuardSpec{Rule: "deeper-value-taken", Fn: cb, Target: storeValueNonNilC01, TargetDesc: "the entry's value becomes the result", Atoms: atoms,
+		G: func(a []bool) bool { return a[0] && a[1] && a[2] && !a[3] && a[5] }, GDesc: "no error ∧ same user key ∧ level>0 ∧ kind==Val"}, anyRet, "return")
+	clearErr := func(in ssa.Instruction) bool {
+		st, ok := in.(*ssa.Store)
+		return ok && evStoreCell("err")(in) && isNilConst(st.Val)
+	}
+	checkGuardExact(p, r, GuardSpec{Rule: "deeper-value-clears-notfound", Fn: cb, Target: clearErr, TargetDesc: "err = nil", Atoms: atoms,
+		G: func(a []bool) bool { return a[0] && a[1] && a[2] && !a[3] && a[5] }, GDesc: "no error ∧ same user key ∧ level>0 ∧ kind==Val"}, anyRet, "return")
 	// the stored candidate is the found entry
 	checkStoreCell(p, r, cb, "zseq-is-fseq", "zseq", mExtract(1, fParseIKey), "the found entry's sequence")
 	checkStoreCell(p, r, cb, "zkt-is-fkt", "zkt", mExtract(2, fParseIKey), "the found entry's kind")
@@ -287,6 +310,8 @@ func ruleVersionGetGuards(p *Prog, r *Report, rule string) {
 	checkGuard(p, r, GuardSpec{Rule: "level0-result-stops", Fn: lcb, Target: retBool(true), TargetDesc: "return true (descend to the next level)",
 		Atoms: []Atom{zfound}, G: func(a []bool) bool { return !a[0] }, GDesc: "¬zfound", MinTargets: 1})
 	checkStoreCell(p, r, lcb, "result-is-zval", "value", mCellNamed("zval"), "the newest level-0 candidate's value")
+	checkGuardExact(p, r, GuardSpec{Rule: "level0-candidate-returned", Fn: lcb, Target: evStoreCell("value"), TargetDesc: "the level-0 candidate's value becomes the result", Atoms: []Atom{zfound, zIsVal},
+		G: func(a []bool) bool { return a[0] && a[1] }, GDesc: "zfound ∧ zkt==Val"}, isReturn, "return")
 
 	// walkOverlapping
 	wo := resolveFn(p, r, "leveldb", "(*version).walkOverlapping")
